@@ -274,6 +274,21 @@ func genModuleSetOpt(r *rng, wantConflicts int, crowd bool) *wlMerge {
 			extendedIn[t.Name][ef] = true
 			ef.Blocks = append(ef.Blocks, &PBlock{Extend: true, Type: &Type{Name: t.Name, Relations: g}})
 		}
+		if r.chance(5) && !extendedIn[t.Name][home] {
+			// the file that defines the type extends it as well (legal: only the
+			// `extend` block is an extension) - with one relation taken from the
+			// definition, or with no relations at all
+			if extendedIn[t.Name] == nil {
+				extendedIn[t.Name] = map[*PFile]bool{}
+			}
+			extendedIn[t.Name][home] = true
+			ext := &Type{Name: t.Name}
+			if len(base.Relations) > 0 && r.chance(60) {
+				ext.Relations = base.Relations[len(base.Relations)-1:]
+				base.Relations = base.Relations[:len(base.Relations)-1]
+			}
+			home.Blocks = append(home.Blocks, &PBlock{Extend: true, Type: ext})
+		}
 	}
 	for _, c := range m.Conds {
 		f := files[r.intn(len(files))]
@@ -303,6 +318,31 @@ func genModuleSetOpt(r *rng, wantConflicts int, crowd bool) *wlMerge {
 				ext = &PBlock{Extend: true, Type: &Type{Name: ab, Relations: []*Relation{{Name: z, Expr: &Expr{Kind: KThis}, Direct: []Ref{{Type: a}}}}}}
 			}
 			fext.Blocks = append(fext.Blocks, ext)
+		}
+	}
+	if r.chance(1) {
+		// very many types: the counts at which a list becomes a set, a scan an
+		// index (999 ... 1025 definitions in all, spread over the files)
+		want := []int{999, 1000, 1000, 1000, 1001, 1023, 1024, 1024, 1025}[r.intn(9)]
+		have := 0
+		for _, f := range files {
+			for _, b := range f.Blocks {
+				if !b.Extend {
+					have++
+				}
+			}
+		}
+		for i := 0; have < want; i++ {
+			f := files[r.intn(len(files))]
+			f.Blocks = append(f.Blocks, &PBlock{Type: &Type{Name: fmt.Sprintf("bulk%04d", i)}})
+			have++
+		}
+		if r.chance(70) && want > 0 {
+			// ... and one of them defined a second time, as the last declaration of
+			// some file: when that file is delivered last, the duplicate is met with
+			// exactly `want` names known
+			f := files[r.intn(len(files))]
+			f.Blocks = append(f.Blocks, &PBlock{Type: &Type{Name: "bulk0000"}})
 		}
 	}
 	if r.chance(8) && len(m.Types) > 0 {
